@@ -464,11 +464,6 @@ M_ADDSUB(bintMinus, -)
 #define bintPlus_UNDER_TEST  bintPlus
 #define bintMinus_UNDER_TEST bintMinus
 #endif
-#ifdef C11_CANARY_ONE_DIGIT	/* canaries only: one-digit operands are enough to refute a wrong postcondition, and cheap */
-#define ADDSUB_CANARY_BOUND(a, b) ((BS_IS_IMM(a) || (a)->placec <= 1) && (BS_IS_IMM(b) || (b)->placec <= 1))
-#else
-#define ADDSUB_CANARY_BOUND(a, b) 1
-#endif
 #define SIGN_CASE(SG, va, vb) \
 	((SG) == 0 ? ((va) >= 0 && (vb) >= 0) : (SG) == 1 ? ((va) < 0 && (vb) >= 0) : \
 	 (SG) == 2 ? ((va) >= 0 && (vb) < 0) : ((va) < 0 && (vb) < 0))
@@ -482,7 +477,6 @@ void h_##fn##_##sfx##_sg##SG(void) \
 	ASSUME(PRE_bint2(a, b)); \
 	bs_v va = BS_V(a), vb = BS_V(b); \
 	ASSUME(SIGN_CASE(SG, va, vb)); \
-	ASSUME(ADDSUB_CANARY_BOUND(a, b)); \
 	BInt r = fn##_UNDER_TEST(a, b); \
 	CHECK(#fn ": exact and canonical", POST_##fn(va, vb, r)); \
 	CHECK(#fn ": operands unchanged", BS_V(a) == va && BS_V(b) == vb); \
